@@ -81,8 +81,8 @@ func init() {
 
 func init() {
 	props["C17"] = &PropSpec{
-		Rules:      []string{"hash/counters", "hash/noempty", "hash/liveness", "cover/reset"},
-		Decides:    "that Reset() of every iterator re-assigns each field its constructor derives from the collection (cached length, version stamp, snapshot), so a reset iterator does not walk a changed collection with stale bounds; for the open-addressing tables behind HashMap, HashRecord and HashSet: (1) a population counter is incremented only when the filled slot was empty/tombstone or on a table under construction, occupiedSlots never shrinks, elements-- only next to a tombstone store, so length() equals the number of distinct keys; (2) no function stores the empty marker into an existing table, so deletion cannot cut a probe chain; (3) every liveness test of a HashSet slot recognises both dead markers.",
+		Rules:      []string{"hash/counters", "hash/noempty", "hash/liveness", "hash/grow-by-occupied", "cover/reset"},
+		Decides:    "that a table which grows because its occupied-slot count reached the load limit grows to at least twice that count (so the rehash cannot be skipped and a free slot always remains); that Reset() of every iterator re-assigns each field its constructor derives from the collection (cached length, version stamp, snapshot), so a reset iterator does not walk a changed collection with stale bounds; for the open-addressing tables behind HashMap, HashRecord and HashSet: (1) a population counter is incremented only when the filled slot was empty/tombstone or on a table under construction, occupiedSlots never shrinks, elements-- only next to a tombstone store, so length() equals the number of distinct keys; (2) no function stores the empty marker into an existing table, so deletion cannot cut a probe chain; (3) every liveness test of a HashSet slot recognises both dead markers.",
 		NotCovered: "the probe sequence itself (hash -> start index, wrap-around, termination when the table is full of tombstones), agreement of equality with hashing, and the Go-map-backed native variants.",
 	}
 	props["C24"] = &PropSpec{
@@ -109,7 +109,7 @@ func init() {
 		NotCovered: "numeric formatting (float %g round trip, big floats, literal bases and suffixes), String#to_int, regex inspect, and nesting of collections: these depend on numeric values, not on table shape.",
 	}
 	props["C01"] = &PropSpec{
-		Rules:      []string{"native/argidx", "native/argrep", "optable/siteinfo", "cover/offsets", "cover/rebase", "stack/stale-after-reentry", "effect/mayfatal-unlock", "path/recoverguard", "path/snapshot-first", "effect/selfrec"},
+		Rules:      []string{"native/argidx", "native/argrep", "hash/grow-by-occupied", "optable/siteinfo", "cover/offsets", "cover/rebase", "stack/stale-after-reentry", "effect/mayfatal-unlock", "path/recoverguard", "path/snapshot-first", "effect/selfrec"},
 		Decides:    "nine host-crash mechanisms, each enumerated over all of its sites: a native method indexes its argument slice only within the parameter count it is registered with; a call instruction is always paired with the call-site record type its handler reinterprets through an unsafe pointer, also after instructions were moved; growing the value stack rebases every saved address, and no VM function uses a stack address across a call that can grow the stack; no program-driven unlock can reach the runtime's unrecoverable fatal error; sends, closes, selects and wait-group decrements on program-held objects are recovered or guarded; a method's defer prologue cannot be lost to a flag snapshot taken too late; no function is an unconditional self call.",
 		NotCovered: "index-out-of-range, nil dereference and explicit panic sites whose guard depends on run-time values; representation mismatches between a native method's declared parameter types and the accessors it applies (planned ARGREP engine, not built); Go map concurrent-write fatals from racy Elk programs; soundness of the Elk type system itself. Open finding: select with a send case on a closed channel (listed under C25).",
 	}
